@@ -550,6 +550,11 @@ def c08(tier):
         ("IfaceName", '"main"'), ("Sigma", "{%s}" % ",".join(str(x) for x in [0, 10, 59, 44, 34, 255, 49, 50, 35])),
         ("MaxLen", "4" if tier == "quick" else "5"), ("Prefix", T.tbytes("A:K #")), ("Starts", "<< <<>> >>"), ("EmitReplay", "FALSE")]),
         label="MCScpiSyntax(block alphabet after 'A:K #')", workers=8)
+    if tier == "thorough":
+        # process model over an alphabet that can spell a message with a newline inside a string ('A:S "<NL>"<NL>'):
+        # carry-over of the unfinished unit and of the path, for every chunking
+        s.model("MCScpiProcess", mc_proc_params("tiny", 'A:S "\n', 9, 8), workers=14, timeout=3000, heap="24g",
+                label="MCScpiProcess(string alphabet, N=9, stream<=8)")
     msgs = c08_messages(s.rng, tier)
     cases = []
     for m in msgs:
